@@ -28,9 +28,10 @@ var docURLs = []string{
 	"http://h/r/s/root.json",     // 8 same path as the root document, on another scheme and host
 	"file:///r/s/root.json.bak",  // 9 sibling file whose name extends the root document's name
 	"http://h:8080/r/s/sib.json", // 10 same path as the sibling file, on a host with a port (with Site 1: the root's host, another port)
+	"file:///r/s/sub/sub/o.json", // 11 from sub/o.json under the relative path that leads from the root to sub/o.json
 }
 
-var docNames = []string{"root", "sibling", "subdir", "parentdir", "absolute-http", "prefix-sibling-dir", "subdir2", "cousin", "same-path-other-site", "name-extends-root-name", "same-host-other-port"}
+var docNames = []string{"root", "sibling", "subdir", "parentdir", "absolute-http", "prefix-sibling-dir", "subdir2", "cousin", "same-path-other-site", "name-extends-root-name", "same-host-other-port", "subdir-of-subdir-same-file-name"}
 
 const (
 	formProperties = iota
@@ -90,6 +91,7 @@ type gspec struct {
 	EntrySpell int
 	IDs        []string // optional "id" per node ("" none)
 	NoDecoys   bool
+	SameText   bool        // chains: every hop is written with the same text (same member name, same relative path)
 	Site       int         // 0: the universe as written (root in file:///r/s/); 1: re-homed, file:///r/ -> http://h/r/ and http://h/ -> http://other/
 	LocalRefs  bool        // the root also holds a parameter / response that is a $ref to a parameter / response of the root
 	Breaks     map[int]int // edge index (or -1: entry refs to N0, -10-k: chain hop k) -> break mode
@@ -515,13 +517,19 @@ func (g *gspec) build() *built {
 			du := docURLs[g.Chain[h].Doc]
 			d := getDoc(du)
 			el := map[string]interface{}{}
+			hopName := func(k int) string {
+				if g.SameText {
+					return name + "1"
+				}
+				return name + strconv.Itoa(k)
+			}
 			if h == len(g.Chain)-1 {
 				el = mk(du)
 			} else {
 				nd := docURLs[g.Chain[h+1].Doc]
-				el = obj("$ref", breakRef(spell(du, nd, fragFor([]string{section, name + strconv.Itoa(h+2)}, false), g.Chain[h+1].Spell), g.Breaks[-10-(h+1)]))
+				el = obj("$ref", breakRef(spell(du, nd, fragFor([]string{section, hopName(h + 2)}, false), g.Chain[h+1].Spell), g.Breaks[-10-(h+1)]))
 			}
-			member(d, section)[name+strconv.Itoa(h+1)] = el
+			member(d, section)[hopName(h+1)] = el
 		}
 		first := docURLs[g.Chain[0].Doc]
 		return obj("$ref", breakRef(spell(rootURL, first, fragFor([]string{section, name + "1"}, false), g.Chain[0].Spell), g.Breaks[-10]))
@@ -666,6 +674,7 @@ func (g *gspec) features() map[string]string {
 	}
 	f["chain"] = strings.Join(ch, ">")
 	f["chainlen"] = strconv.Itoa(len(g.Chain))
+	f["sametext"] = strconv.FormatBool(g.SameText)
 	f["entryspell"] = spellNames[g.EntrySpell]
 	f["site"] = []string{"file", "http"}[g.Site]
 	ids := []string{}
